@@ -895,3 +895,51 @@ func normaliseForeign(got, want []string, model map[estKey]int64, qe int64, est 
 	}
 	return res
 }
+
+// TestC20ReputationMany: many values under one (epoch, peer): the per-id counter passes the one-byte boundaries.
+func TestC20ReputationMany(t *testing.T) {
+	theT = t
+	col := ev.New("C20", "reputation-many",
+		"complete enumeration: n in {126,127,128,129,130,255,256,257,260} distinct values are put under one (epoch, peer) by the Alphabet, with a second id next to it; get(epoch, peer), getByID(id) must return exactly those n values (as a multiset, no Null, nothing of the neighbour) and listByEpoch the two ids; non-trivial = every case")
+	defer func() { col.Flush(true) }()
+	nshards, shard := envInt("VERIF_NSHARDS", 1), envInt("VERIF_SHARD_INDEX", 0)
+	peers := repPeers()
+	for i, n := range []int{126, 127, 128, 129, 130, 255, 256, 257, 260} {
+		if i%nshards != shard {
+			continue
+		}
+		h := ev.NewHistory()
+		h.Op("%d values under one id", n)
+		if !runCase(t, col, h, func() {
+			w := newNmWorld(1, h, "reputation")
+			defer w.close()
+			rep := w.fs.H["reputation"]
+			e := int64(5)
+			var want []string
+			w.c.Invoke(w.alpha, rep, "put", e, peers[1], []byte("neighbour"))
+			for j := 0; j < n; j++ {
+				v := []byte(fmt.Sprintf("value-%04d", j))
+				if o := w.c.Invoke(w.alpha, rep, "put", e, peers[0], v); !o.Halt {
+					fail("C20: put #%d under one id refused: %s", j+1, o)
+				}
+				want = append(want, "x"+hex(v))
+			}
+			for _, q := range []struct {
+				what string
+				o    *chainkit.Outcome
+			}{{"get", w.c.Call(nil, rep, "get", e, peers[0])}, {"getByID", w.c.Call(nil, rep, "getByID", repID(e, peers[0]))}} {
+				got, ok := renderList(q.o)
+				if !ok {
+					fail("C20: reputation %s after %d puts failed: %s", q.what, n, q.o)
+				}
+				if !sameStrings(got, sorted(want)) {
+					fail("C20: reputation %s after %d puts under one id returns %d items (%s...), expected exactly the %d values put", q.what, n, len(got), short(got), n)
+				}
+			}
+			h.NonTrivial()
+		}) {
+			return
+		}
+	}
+	col.SetExhaustive(true)
+}
